@@ -4,7 +4,7 @@
 //	C07/timeout-without-progress:<what>      a round timer that fires for the operator's current round (< cut-off, undecided) must
 //	                                         move it to the next round, clear the accepted proposal, re-arm the timer for that round
 //	                                         and announce exactly one round-change for it that carries the lock — every round up to
-//	                                         the cut-off
+//	                                         the cut-off; when the operator's own Broadcast fails in that op (nf=a|b) the first three still hold
 //	C07/undecided-operator-without-live-round-timer
 //	                                         after every op an undecided operator that still processes messages has a round timer
 //	                                         armed for the round it is in (Controller.OnTimeout discards any other)
@@ -211,7 +211,7 @@ func (c *Case) c07AfterTimeout(p c07Pre, h specqbft.Height, round specqbft.Round
 		return
 	}
 	inst := c.c07Inst()
-	if p.ok && inst != nil && h == c.height && round == p.round && !p.faultInjected {
+	if p.ok && inst != nil && h == c.height && round == p.round {
 		bad := func(what, detail string) {
 			c.stepViolate("C07/timeout-without-progress:"+what,
 				fmt.Sprintf("operator %d, round timer of round %d (cut-off %d) fired: %s (result `%s`)", c.op, p.round, instance.CutoffRound, detail, r.res))
@@ -236,6 +236,9 @@ func (c *Case) c07AfterTimeout(p c07Pre, h specqbft.Height, round specqbft.Round
 			bad("accepted-proposal-not-cleared", "ProposalAcceptedForCurrentRound is still set")
 		case !timer:
 			bad("timer-not-rearmed", fmt.Sprintf("no timer armed for round %d", p.round+1))
+		case p.faultInjected:
+			// the operator's own Broadcast failed in this op (nf=a|b): the round-change may be missing and the step reports the
+			// error, but the operator must have moved on and re-armed its timer all the same (checked above)
 		case rcs != 1:
 			bad("round-change-not-announced", fmt.Sprintf("%d round-change(s) for round %d broadcast", rcs, p.round+1))
 		case !lockOK:
